@@ -317,6 +317,25 @@ def same_result(a, b):
         return True
 
 
+def scribble(o):
+    """Overwrite every writeable ndarray inside a result (in place); returns how many were overwritten."""
+    n = 0
+    if isinstance(o, np.ndarray):
+        if o.flags.writeable and o.size:
+            try:
+                o[...] = 7 if o.dtype.kind in "iub" else -123.456
+                n += 1
+            except (ValueError, TypeError):
+                pass
+    elif isinstance(o, (list, tuple)):
+        for x in o:
+            n += scribble(x)
+    elif isinstance(o, dict):
+        for x in o.values():
+            n += scribble(x)
+    return n
+
+
 # ------------------------------------------------------------------ laws 1 + 2
 
 def names_strategy():
@@ -355,10 +374,20 @@ def one_call_body(ctx, case):
         np.random.seed(seed % (2**32))
         r2 = quiet(call, name, fn, args2, kwargs2)
         ctx.require(same_result(r1, r2), "%s returned different results for equal arguments (hidden state)" % name)
-        # ... and once more after unrelated calls changed whatever module state there may be
+        # ... and once more with the same (unmodified) argument objects
         np.random.seed(seed % (2**32))
         r3 = quiet(call, name, fn, args, kwargs)
         ctx.require(same_result(r1, r3), "%s returned a different result when called again with the same (unmodified) arguments" % name)
+        # the caller owns what it gets back: overwriting a returned array must not change what an equal call returns later
+        import copy
+        keep = copy.deepcopy(r1)
+        n_scribbled = scribble(r1) + scribble(r3)
+        if n_scribbled:
+            a4, k4 = builder(A(seed, variant))
+            np.random.seed(seed % (2**32))
+            r4 = quiet(call, name, fn, a4, k4)
+            ctx.require(same_result(keep, r4), "%s: after the caller overwrote the array it got back, an equal call returns a different result (returned array is shared hidden state)" % name)
+            ctx.classes["result_scribble_checked"] += 1
     finally:
         np.random.set_state(st_np)
         random.setstate(st_py)
